@@ -364,6 +364,7 @@ class _OrbitContinuationService(_DynamicsServiceBase):
         """
         self._continuation_config = value
         self._generator = None  # Invalidate cache to trigger recreation
+        self.reset()  # Families memoised by generate() belong to the previous configuration
 
     @property
     def continuation_options(self) -> "OrbitContinuationOptions":
